@@ -834,8 +834,12 @@ def check_C13(tr, expiration):
     # quiescence: the last step is a non-faulted sweep, nobody is connected, and every
     # activity lies at least the expiration time before it -> the store is empty
     if tr.steps and tr.final is not None:
+        # the last sweep; after it at most restarts (a restart shows what that sweep COMMITTED)
+        j = len(tr.steps) - 1
+        while j > 0 and tr.steps[j].op["op"] == "restart" and not tr.steps[j].crashed():
+            j -= 1
         alive, last_t = set(), None
-        for st in tr.steps[:-1]:
+        for st in tr.steps[:j]:
             k = st.op["op"]
             # a sweep or command that finds somebody connected may stamp a mailbox with its own time
             tt = st.op.get("t", st.op.get("now"))
@@ -847,13 +851,18 @@ def check_C13(tr, expiration):
                 alive.discard(st.op["c"])
             elif k in ("restart", "cfg") or st.crashed():
                 alive.clear()
-        fin = tr.steps[-1]
+        fin = tr.steps[j]
         if fin.op["op"] == "sweep" and not fin.op.get("fault") and not fin.crashed() and not alive and \
                 (last_t is None or fin.op["now"] >= last_t + expiration):
-            n = sum(len(v) for k, v in tr.final.chan_rows().items())
-            if n:
-                out.append(Finding("C13", "the store is empty once everybody has gone and the expiration time has passed",
-                                   fin.i, {"rows_left": {k: v[:3] for k, v in tr.final.chan_rows().items() if v}}))
+            for what, state in (("the store is empty once everybody has gone and the expiration time has passed", fin.post),
+                                ("... and is still empty after a restart (the sweep committed its deletions)",
+                                 tr.final if j < len(tr.steps) - 1 else None)):
+                if state is None:
+                    continue
+                n = sum(len(v) for k, v in state.chan_rows().items())
+                if n:
+                    out.append(Finding("C13", what, fin.i, {"rows_left": {k: v[:3] for k, v in state.chan_rows().items() if v}}))
+                    break
     return out
 
 
